@@ -110,9 +110,15 @@ CLAIMS = {
          "for even k generation is kernel-checked for N<=4 and decided per (N,k) by the Lean-verified closure checker for N<=6/8 (+ Python closure, + classifier get_algebra()==su(2^N) to "
          "N=10/14). The all-N universality for even k (arXiv:2408.03294) is NOT proved.",
          "Lean proof (size, refutation for all odd k) + Lean-verified closure checker per (N,k) + differential correspondence"),
+ "C16": ("other", "6.C16", "Proved in Lean for ALL n and all non-empty collections (exact Gaussian rationals): every returned quadratic symmetry commutes with g(x)1 + 1(x)g for every member g "
+         "(involution s <-> s*g on a component); distinct symmetries are trace-orthogonal with non-zero norm; the twirl (rational form Q*tr(Q^H M)/tr(Q^H Q) of the normalised code path) "
+         "never raises on 2n-qubit operands, is linear, idempotent, fixes every symmetry, its output commutes, the residual is orthogonal to every symmetry, and it is self-adjoint "
+         "(orthogonal projector); the symmetries are linearly independent members of the commutant (count <= dimension). NOT proved: completeness (count >= dimension, "
+         "arXiv:2502.16404) — explicit hypothesis of C16_partial, decided per input by an exact null-space computation (n<=2 quick, 3 thorough). Floats and sqrt compared at 1e-9.",
+         "Lean proofs (commutation, orthogonality, projector algebra, independence) + completeness per input by exact rank + differential correspondence"),
 }
 PENDING = {}
-ACTIVE = ["C04", "C18", "C17", "C14", "C01", "C02", "C08", "C09", "C10", "C15", "C12", "C13", "C03", "C20", "C11", "C19", "C05", "C06", "C07"]
+ACTIVE = ["C04", "C18", "C17", "C14", "C01", "C02", "C08", "C09", "C10", "C15", "C12", "C13", "C03", "C20", "C11", "C19", "C05", "C06", "C07", "C16"]
 def main():
     props = [json.loads(l) for l in open(os.path.join(V, "properties.jsonl"))]
     checks, na = [], []
